@@ -74,6 +74,6 @@ JOBS['C04'] = [
      'defs': {'quick': {'PAIRS_DIAGONAL': 1}, 'thorough': {}},
      'expect_reach': ['end', 'B-changed', 'both-changed'], 'timeout': {'quick': 280, 'thorough': 1700}},
     {'name': 'lbuf_history_deep', 'harness': 'c04_hist.c', 'units': ['lbuf', 'sbuf', 'uc'],
-     'defs': {'quick': {'K': 3, 'SMALL': 1}, 'thorough': {'K': 4, 'SMALL': 1}},
-     'expect_reach': ['end', 'edit', 'undo', 'redo', 'undo-at-start', 'redo-at-end'], 'timeout': {'quick': 280, 'thorough': 1700}},
+     'defs': {'quick': {'K': 3, 'SMALL': 1, 'NOPS': 6}, 'thorough': {'K': 4, 'SMALL': 1, 'NOPS': 6}},
+     'expect_reach': ['end', 'edit', 'undo', 'redo', 'undo-at-start', 'redo-at-end', 'history-cleared'], 'timeout': {'quick': 280, 'thorough': 1700}},
 ]
